@@ -1,0 +1,144 @@
+//! Facade over crate-private items and scheduling hooks for the external verification harness.
+//!
+//! Only compiled with `--cfg nucleo_verif`; not part of the public API and without any
+//! effect on the library when the cfg is off.
+#![allow(missing_docs)]
+
+use std::sync::atomic::AtomicBool;
+use std::sync::{Arc, RwLock};
+
+use crate::{boxcar, par_sort, Item, Utf32String};
+
+/// A callback invoked at every yield point with the site name and an argument (usually an index).
+pub type Hook = dyn Fn(&'static str, u64) + Send + Sync;
+
+static HOOK: RwLock<Option<Arc<Hook>>> = RwLock::new(None);
+
+/// Installs (or removes) the scheduler callback.
+pub fn set_hook(hook: Option<Arc<Hook>>) {
+    *HOOK.write().unwrap() = hook;
+}
+
+#[inline]
+pub(crate) fn yield_point(site: &'static str, arg: u64) {
+    let hook = HOOK.read().unwrap().clone();
+    if let Some(hook) = hook {
+        hook(site, arg)
+    }
+}
+
+/// A callback that may reorder the list of in-flight indices collected by a parallel scan
+/// (any order is possible in a real execution: the pool threads race for a mutex).
+pub type Permute = dyn Fn(&mut Vec<u32>) + Send + Sync;
+static PERMUTE: RwLock<Option<Arc<Permute>>> = RwLock::new(None);
+pub fn set_in_flight_permutation(f: Option<Arc<Permute>>) {
+    *PERMUTE.write().unwrap() = f;
+}
+pub(crate) fn permute_in_flight(v: &mut Vec<u32>) {
+    let f = PERMUTE.read().unwrap().clone();
+    if let Some(f) = f {
+        f(v)
+    }
+}
+
+/// `boxcar::Vec`
+pub struct VVec<T>(boxcar::Vec<T>);
+
+impl<T> VVec<T> {
+    pub fn with_capacity(capacity: u32, columns: u32) -> Self {
+        VVec(boxcar::Vec::with_capacity(capacity, columns))
+    }
+    pub fn columns(&self) -> u32 {
+        self.0.columns()
+    }
+    pub fn count(&self) -> u32 {
+        self.0.count()
+    }
+    pub fn get(&self, index: u32) -> Option<Item<'_, T>> {
+        self.0.get(index)
+    }
+    /// # Safety
+    /// the entry must be initialized
+    pub unsafe fn get_unchecked(&self, index: u32) -> Item<'_, T> {
+        self.0.get_unchecked(index)
+    }
+    pub fn push(&self, value: T, fill_columns: impl FnOnce(&T, &mut [Utf32String])) -> u32 {
+        self.0.push(value, fill_columns)
+    }
+    pub fn extend<I>(&self, values: I, fill_columns: impl Fn(&T, &mut [Utf32String]))
+    where
+        I: IntoIterator<Item = T> + ExactSizeIterator,
+    {
+        self.0.extend(values, fill_columns)
+    }
+    /// `snapshot(start)` drained: (end, [(index, is_initialized)])
+    pub fn snapshot(&self, start: u32) -> (u32, Vec<(u32, bool)>) {
+        let iter = unsafe { self.0.snapshot(start) };
+        let end = iter.end();
+        (end, iter.map(|(idx, item)| (idx, item.is_some())).collect())
+    }
+}
+
+impl<T: Send + Sync> VVec<T> {
+    /// `par_snapshot(start)` drained inside the current rayon pool
+    pub fn par_snapshot(&self, start: u32) -> (u32, Vec<(u32, bool)>) {
+        use rayon::prelude::*;
+        let iter = unsafe { self.0.par_snapshot(start) };
+        let end = iter.end();
+        (end, iter.map(|(idx, item)| (idx, item.is_some())).collect())
+    }
+}
+
+/// `boxcar::Location::of`: (bucket, bucket_len, entry)
+pub fn location_of(index: u32) -> (u32, u32, u32) {
+    boxcar::location_of(index)
+}
+
+/// `par_sort::par_quicksort`
+pub fn par_quicksort<T, F>(v: &mut [T], is_less: F, canceled: &AtomicBool) -> bool
+where
+    T: Send,
+    F: Fn(&T, &T) -> bool + Sync,
+{
+    par_sort::par_quicksort(v, is_less, canceled)
+}
+
+/// `pattern::Status` of a `MultiPattern`: 0 unchanged, 1 update, 2 rescore
+pub fn pattern_status(pattern: &crate::pattern::MultiPattern) -> u8 {
+    pattern.status() as u8
+}
+
+/// Worker-side state, copied under the lock (None while a run holds it)
+#[derive(Debug, Clone)]
+pub struct WorkerView {
+    pub running: bool,
+    pub was_canceled: bool,
+    pub last_snapshot: u32,
+    pub in_flight: Vec<u32>,
+    pub matches: Vec<(u32, u32)>,
+}
+
+impl<T: Sync + Send + 'static> crate::Nucleo<T> {
+    pub fn verif_worker_locked(&self) -> bool {
+        self.worker.is_locked()
+    }
+    pub fn verif_worker_view(&self) -> Option<WorkerView> {
+        let w = self.worker.try_lock()?;
+        Some(WorkerView {
+            running: w.running,
+            was_canceled: w.was_canceled,
+            last_snapshot: w.last_snapshot,
+            in_flight: w.verif_in_flight(),
+            matches: w.matches.iter().map(|m| (m.score, m.idx)).collect(),
+        })
+    }
+    /// (state: 0 init / 1 cleared / 2 fresh, canceled flag, should_notify flag)
+    pub fn verif_flags(&self) -> (u8, bool, bool) {
+        use std::sync::atomic::Ordering;
+        (
+            self.state as u8,
+            self.canceled.load(Ordering::SeqCst),
+            self.should_notify.load(Ordering::SeqCst),
+        )
+    }
+}
